@@ -392,8 +392,14 @@ func cmdCheck(args []string) int {
 		}
 	}
 	if !*noEvidence {
-		var asm []string
+		asm := []string{}
 		asm = append(asm, pc.Assumptions...)
+		if pc.NotDecided == nil {
+			pc.NotDecided = []string{}
+		}
+		if pc.Bounded == nil {
+			pc.Bounded = []string{}
+		}
 		for _, a := range sortedKeys(assumed) {
 			asm = append(asm, a)
 		}
